@@ -307,4 +307,146 @@ case=> <-; case: Hx => Hqa ->; case: Hy => Hqb ->.
 by have [H1 H2] := qr_mul R Hqa Hqb.
 Qed.
 
+(* ---- inverse *)
+Lemma horner_pr_rcons (s : seq Z) (c : Z) (w : R) :
+  (pr (rcons s c)).[w] = (pr s).[w] + zr c * w ^+ size s.
+Proof.
+elim: s => [|a s IH] /=.
+  by rewrite pr_cons pr_nil mul0r addr0 hornerC horner0 add0r expr0 mulr1.
+rewrite !pr_cons !hornerD !hornerC !hornerMX IH mulrDl exprSr mulrA addrA.
+by [].
+Qed.
+
+Lemma horner_pr_rev (l : seq Z) (w : R) : w != 0 ->
+  (pr (rev l)).[w] * w = w ^+ size l * (pr l).[w^-1].
+Proof.
+move=> w0; elim: l => [|c l IH] /=; first by rewrite pr_nil !horner0 mul0r mulr0.
+rewrite rev_cons horner_pr_rcons size_rev mulrDl IH pr_cons hornerD hornerC hornerMX.
+rewrite exprS; move: ((pr l).[w^-1]) (w ^+ size l) (zr c) => A B C.
+by field.
+Qed.
+
+Lemma root_pr_rev (l : seq Z) (w : R) : w != 0 -> root (pr (rev l)) w = root (pr l) w^-1.
+Proof.
+move=> w0; rewrite !rootE.
+have -> : ((pr (rev l)).[w] == 0) = ((pr (rev l)).[w] * w == 0) by rewrite mulf_eq0 (negbTE w0) orbF.
+by rewrite horner_pr_rev // mulf_eq0 expf_eq0 (negbTE w0) andbF.
+Qed.
+
+Lemma qr_inv (q i : Z * Z) : qpos q -> q_inv q = Some i -> [/\ qpos i, qr q != 0 & qr i = (qr q)^-1].
+Proof.
+move=> Hq; rewrite /q_inv; case: q Hq => n d /= Hd Hi.
+have n0 : n <> Z0 by move=> E; move: Hi; rewrite /q_canon E.
+have [[Hpos _] Heq] := ScalarProofs.q_canon_spec d n i Hi.
+have zn0 : zr n != 0 by rewrite zr_eq0; apply/negP => /Z.eqb_eq.
+have zd0 : zr d != 0 by rewrite gt_eqF // zr_gt0.
+have zi0 : zr i.2 != 0 by rewrite gt_eqF // zr_gt0.
+split=> //; first by rewrite /RefAlgSpec.qr /= mulf_neq0 ?invr_eq0.
+rewrite /RefAlgSpec.qr /= invf_div; apply/eqP; rewrite eqr_div //.
+by rewrite -!zrM Heq.
+Qed.
+
+Lemma q_sgn_mul_gt0 (lo hi : Z * Z) : qpos lo -> qpos hi ->
+  Z.ltb Z0 (Z.mul (q_sgn lo) (q_sgn hi)) = (0 < qr lo * qr hi).
+Proof.
+move=> Hlo Hhi.
+have Hs (q : Z * Z) : qpos q -> zr (q_sgn q) = sgr (qr q).
+  move=> Hq; rewrite /q_sgn -zr_sgn /RefAlgSpec.qr sgrM sgrV.
+  by rewrite [sgr (zr q.2)]gtr0_sg ?zr_gt0 // mulr1.
+rewrite -sgr_gt0 sgrM -!Hs // -zrM -(zr0 R) (zr_lt R).
+by [].
+Qed.
+
+Lemma inv_lt (x y : R) : 0 < x * y -> (x^-1 < y^-1) = (y < x).
+Proof.
+case: (ltrgt0P x) => [x0|x0|->]; last by rewrite mul0r ltxx.
+  by rewrite pmulr_rgt0 // => y0; rewrite ltf_pinv.
+by rewrite nmulr_rgt0 // => y0; rewrite ltf_ninv.
+Qed.
+
+Lemma same_sign_between (lo hi a : R) : 0 < lo * hi -> lo < a < hi -> 0 < lo * a /\ 0 < a * hi.
+Proof.
+move=> Hs /andP[la ah]; case: (ltrgt0P lo) Hs => [l0|l0|->]; last by rewrite mul0r ltxx.
+  rewrite pmulr_rgt0 // => h0; have a0 := lt_trans l0 la.
+  by rewrite !pmulr_rgt0.
+rewrite nmulr_rgt0 // => h0; have a0 := lt_trans ah h0.
+by rewrite nmulr_rgt0 // a0 nmulr_rgt0.
+Qed.
+
+Theorem rn_inv_loop_spec_cond (fuel : nat) (x z : rnum) (a : R) :
+  rn_denotes x a -> a != 0 -> rn_inv_loop fuel x = Some z -> rn_denotes z a^-1.
+Proof.
+elim: fuel x => [|f IH] x //= Hx a0.
+case: x Hx => [q|p lo hi] Hx.
+  case: Hx => Hq Ea; case Ei: (q_inv q) => [i|] // [<-].
+  by have [Hi _ Ei'] := qr_inv Hq Ei; split=> //; rewrite Ea.
+have [[Hlo Hhi] /andP[lov vhi] rv uniq sgn] := Hx.
+rewrite q_sgn_mul_gt0 //; case: ifP => [Hs|_]; last by apply: IH => //; exact: rn_refine_spec.
+case El: (q_inv hi) => [l|] //; case Eh: (q_inv lo) => [h|] // [<-].
+have [Hl hi0 Eql] := qr_inv Hhi El; have [Hh lo0 Eqh] := qr_inv Hlo Eh.
+have [Hla Hah] := same_sign_between Hs (introT andP (conj lov vhi)).
+have p0 : Poly p != 0.
+  rewrite -(pr_eq0 R); apply/eqP => E.
+  by move: sgn; rewrite E !horner0 sgr0 mulr0 => /eqP; rewrite eq_sym oppr_eq0 oner_eq0.
+have Epn : pr (pnorm p) = pr p by rewrite /RefAlgSpec.pr Poly_pnorm.
+have Hrev (w : R) : w != 0 -> root (pr (List.rev (pnorm p))) w = root (pr p) w^-1.
+  by move=> w0; rewrite List_rev_rev root_pr_rev // Epn.
+have Pl : (pr p).[qr lo] != 0.
+  by apply/eqP => H0; move: sgn; rewrite H0 sgr0 mul0r => /eqP; rewrite eq_sym oppr_eq0 oner_eq0.
+have Ph : (pr p).[qr hi] != 0.
+  by apply/eqP => H0; move: sgn; rewrite H0 sgr0 mulr0 => /eqP; rewrite eq_sym oppr_eq0 oner_eq0.
+have rev0 : Poly (List.rev (pnorm p)) != 0.
+  rewrite -(pr_eq0 R); apply/eqP => E.
+  have := Hrev _ (invr_neq0 lo0); rewrite E root0 invrK => /esym.
+  by rewrite rootE (negbTE Pl).
+have [r0 Hsq Hroot] := psqfree_correct rev0.
+apply: denotes_of_sqfree => //.
+- rewrite Eql Eqh inv_lt; last by rewrite mulrC.
+  by rewrite inv_lt; [rewrite vhi lov|rewrite mulrC].
+- by rewrite Hroot Hrev ?invr_neq0 // invrK.
+- move=> w; rewrite Hroot Eql Eqh => rw /andP[h1 h2].
+  have Hs' : 0 < (qr hi)^-1 * (qr lo)^-1 by rewrite -invfM invr_gt0 mulrC.
+  have [Hw1 Hw2] := same_sign_between Hs' (introT andP (conj h1 h2)).
+  have w0 : w != 0 by apply/eqP => E; move: Hw1; rewrite E mulr0 ltxx.
+  move: rw; rewrite Hrev // => rw.
+  have Hin : qr lo < w^-1 < qr hi.
+    rewrite -[qr lo]invrK -[qr hi]invrK inv_lt; last by rewrite mulrC.
+    by rewrite inv_lt; [rewrite h2 h1|rewrite mulrC].
+  by rewrite -(uniq _ rw Hin) invrK.
+- by rewrite -rootE Hroot Eql Hrev ?invr_neq0 // invrK rootE.
+- by rewrite -rootE Hroot Eqh Hrev ?invr_neq0 // invrK rootE.
+Qed.
+
+Theorem rn_inv_spec_cond (fuel : nat) (x z : rnum) (a : R) :
+  rn_denotes x a -> rn_inv fuel x = Some z -> a != 0 /\ rn_denotes z a^-1.
+Proof.
+move=> Hx; rewrite /rn_inv (rn_sgn_eq0 Hx); case: (altP (a =P 0)) => // a0 Hz.
+by split=> //; exact: rn_inv_loop_spec_cond Hz.
+Qed.
+
+Theorem rn_div_spec_cond (fuel : nat) (x y z : rnum) (a b : R) :
+  rn_denotes x a -> rn_denotes y b -> rn_div fuel x y = Some z -> b != 0 /\ rn_denotes z (a / b).
+Proof.
+move=> Hx Hy; rewrite /rn_div; case Ei: (rn_inv fuel y) => [i|] // Hz.
+have [b0 Hi] := rn_inv_spec_cond Hy Ei.
+by split=> //; exact: rn_mul_spec_cond Hz.
+Qed.
+
+Lemma denotes_one : rn_denotes (RQ (Zpos xH, Zpos xH)) 1.
+Proof. by split=> //; rewrite /RefAlgSpec.qr /= zr1 divr1. Qed.
+
+Lemma rn_pow_SS (fuel : nat) (x : rnum) (n : nat) :
+  rn_pow fuel x n.+2 = match rn_pow fuel x n.+1 with Some y => rn_mul fuel x y | None => None end.
+Proof. by []. Qed.
+
+Theorem rn_pow_spec_cond (fuel : nat) (x z : rnum) (a : R) (n : nat) :
+  rn_denotes x a -> rn_pow fuel x n = Some z -> rn_denotes z (a ^+ n).
+Proof.
+move=> Hx; elim: n z => [|[|n] IH] z.
+- by case=> <-; rewrite expr0; exact: denotes_one.
+- by case=> <-; rewrite expr1.
+- rewrite rn_pow_SS; case Ey: (rn_pow fuel x n.+1) => [y|] // Hz.
+  by rewrite exprS; exact: rn_mul_spec_cond Hx (IH _ Ey) Hz.
+Qed.
+
 End Ops.
